@@ -18,7 +18,7 @@ RULE = ("Hypothesis-generated simple loop-free graphs built as unions of planted
         "clique of size >= 4; distinct = canonical JSON")
 ASSUMPTIONS = ["node ids are non-negative ints or tuples of such (labels embed the member list textually and are parsed back)"]
 BUDGET = {"quick": (16, 250), "thorough": (16, 8000)}
-LABEL = re.compile(r"^(\d+)-(\[.*\])-(\d+)$")
+LABEL = re.compile(r"^(\d+)-(\[.*\])-(\d+)$")  # members may be negative ints or tuples: only the outer fields are digits
 
 
 @st.composite
@@ -48,11 +48,15 @@ def graph_history(draw, tier):
     edges = sorted(edges)
     order = draw(st.permutations(edges)) if edges else []
     flip = [draw(st.booleans()) for _ in order]
-    relabel = draw(st.sampled_from(["id", "offset", "perm"]))
+    relabel = draw(st.sampled_from(["id", "offset", "perm", "negative", "big"]))
     if relabel == "perm":
         labels = draw(st.permutations(list(range(n))))
     elif relabel == "offset":
         labels = [3 * i + 5 for i in range(n)]
+    elif relabel == "negative":
+        labels = [x - 2 for x in draw(st.permutations(list(range(n))))]
+    elif relabel == "big":
+        labels = [1000 + 37 * x for x in draw(st.permutations(list(range(n))))]
     else:
         labels = list(range(n))
     node_order = draw(st.permutations(list(range(n)))) if draw(st.booleans()) else None
